@@ -106,7 +106,12 @@ def atom_str(a):
 
 
 def poly_key_str(k):
-    return repr(Poly(dict(k))) if isinstance(k, tuple) else repr(k)
+    if isinstance(k, tuple) and k and k[0] in ('kw', 'kv') and len(k) == 3:
+        return '%s=%s' % (k[1] if isinstance(k[1], str) else poly_key_str(k[1]), poly_key_str(k[2]))
+    try:
+        return repr(Poly(dict(k))) if isinstance(k, tuple) else repr(k)
+    except (ValueError, TypeError):
+        return repr(k)
 
 
 def is_pow2(n):
@@ -127,6 +132,7 @@ class Canon:
         # when the rule declares the operands non-negative, truncating and flooring division coincide
         self.unify_divmod = unify_divmod
         self.str_map = {}
+        self.ctor_roles = {}
 
     def leaf(self, name):
         if name in self.env:
@@ -236,6 +242,20 @@ class Canon:
                 x, y = sorted([l.key(), r.key()], key=repr)
                 return Poly.atom((tag, x, y))
             return Poly.atom(('cmp', op, l.key(), r.key()))
+        if k == 'call' and a[0] in self.ctor_roles:
+            # keyword constructor of a record: positional by the declared field order
+            order = self.ctor_roles[a[0]]
+            vals = {}
+            pos = []
+            for x in a[2]:
+                if x.k == 'kw':
+                    vals[x.a[0]] = self(x.a[1]).key()
+                else:
+                    pos.append(self(x).key())
+            for i, v in enumerate(pos):
+                vals[order[i]] = v
+            if set(vals) == set(order):
+                return Poly.atom(('init', self.fn.get(a[0], a[0]), tuple(vals[f] for f in order)))
         if k == 'call':
             name = self.fn.get(a[0], a[0])
             args = []
@@ -248,9 +268,15 @@ class Canon:
                     args.append(self(x).key())
             return Poly.atom(('fn', name, tuple(args)))
         if k == 'cond':
-            return Poly.atom(('cond', self(a[0]).key(), self(a[1]).key(), self(a[2]).key()))
+            c0, c1, c2 = self(a[0]), self(a[1]), self(a[2])
+            if c0 == c1 and c2.is_const() and c2.const_value() == 0:
+                return c1       # `x if x else 0` on integers is x
+            return Poly.atom(('cond', c0.key(), c1.key(), c2.key()))
+        if k == 'kv':
+            return Poly.atom(('kv', self(a[0]).key(), self(a[1]).key()))
         if k == 'init':
-            return Poly.atom(('init', a[0], tuple(self(x).key() for x in a[1])))
+            tname = self.fn.get(a[0], a[0])
+            return Poly.atom(('init', tname, tuple(self(x).key() for x in a[1])))
         return Poly.atom(('opaque', show(e)))
 
 
@@ -515,6 +541,8 @@ class SymExec:
         self.out_params = set()
         self.str_map = {}
         self.cmp_calls = {}     # resolved callee name -> comparison operator on its two arguments
+        self.bool_return = False   # summarise `return <boolean expr>` as two guarded paths returning 1 / 0
+        self.ctor_roles = {}
 
     def canon(self, env):
         return _InliningCanon(self, env)
@@ -622,6 +650,11 @@ class SymExec:
             return out
         if k == 'return':
             for st in states:
+                if self.bool_return and a[0] is not None:
+                    f = self.cond(a[0], st.env)
+                    summary.add(f_and(st.guard, f), 'return', Poly.const(1).key(), st.effects)
+                    summary.add(f_and(st.guard, f_not(f)), 'return', Poly.const(0).key(), st.effects)
+                    continue
                 r = self.canon(st.env)(a[0]).key() if a[0] is not None else None
                 summary.add(st.guard, 'return', r, st.effects)
             return []
@@ -702,6 +735,7 @@ class _InliningCanon(Canon):
         Canon.__init__(self, env=env, sym=sx.sym, fn=sx.fn, lang=sx.lang, fold_global=sx.fold_global,
                        unify_divmod=sx.unify_divmod)
         self.str_map = sx.str_map
+        self.ctor_roles = sx.ctor_roles
         self.sx = sx
 
     def __call__(self, e):
